@@ -323,6 +323,7 @@ func (st *srvState) onAuthFrame(cn *adnlsrv.Conn, payload []byte) bool {
 			cn.Note("a second tcp.authentificate on one connection: ignored")
 			return true
 		}
+		st.holdNonceFor(cn) // held_test.go: the nonce may be withheld for a while
 		cn.Note("tcp.authentificate (client nonce %d bytes): server nonce of %d bytes sent", len(nonce), len(sn))
 		cn.WriteFrame(adnlsrv.AuthNonce(sn))
 		return true
